@@ -39,6 +39,8 @@ def task_json(t):
                            ("schedule", "schedule"), ("tags", "tags"), ("ignore_response_error_level", "ignore-response-error-level")):
         if t.get(k_case) is not None:
             d[k_json] = t[k_case]
+    if t.get("meta") is not None:
+        d["meta"] = t["meta"]
     return d
 
 
@@ -55,6 +57,8 @@ def track_json(case):
                 params = {"name": "op-" + t["name"], "operation-type": t.get("op_type", "verif-op"), "param-source": "verif-source", "requests": t["requests"], "task": t["name"]}
                 if t.get("finite") is not None:
                     params["finite"] = t["finite"]
+                if t.get("op_meta") is not None:
+                    params["meta"] = t["op_meta"]
             ops.append(params)
         if el.get("parallel"):
             p = {"tasks": [task_json(t) for t in el["tasks"]]}
